@@ -6,7 +6,7 @@ use std::cell::{Cell, RefCell};
 use std::collections::{BTreeMap, HashSet};
 use std::fmt::Debug;
 use std::panic::{catch_unwind, AssertUnwindSafe};
-use std::path::{Path, PathBuf};
+use std::path::PathBuf;
 use std::sync::atomic::{AtomicBool, AtomicU64, Ordering};
 use std::sync::{Mutex, Once};
 use std::time::Instant;
@@ -49,6 +49,18 @@ pub struct Verdict {
     pub classes: Vec<&'static str>,
     /// Overrides the default fingerprint (hash of the Debug form of the case).
     pub fingerprint: Option<u64>,
+    /// When one runner case stands for a whole family of executions (e.g. a subtree of an
+    /// exhaustive enumeration executed inside the oracle), the oracle reports the measured counts here
+    /// and they replace the per-case +1 accounting. The executions counted as distinct non-trivial
+    /// must be distinct by construction across cases.
+    pub bulk: Option<Bulk>,
+}
+
+#[derive(Default, Debug, Clone)]
+pub struct Bulk {
+    pub evaluations: u64,
+    pub distinct_nontrivial: u64,
+    pub classes: Vec<(&'static str, u64)>,
 }
 
 impl Verdict {
@@ -233,6 +245,7 @@ pub fn load_known_findings(property: &str) -> Vec<KnownFinding> {
 #[derive(Default)]
 struct SubStats {
     evaluations: u64,
+    bulk_nontrivial: u64,
     nontrivial: HashSet<u64>,
     classes: BTreeMap<&'static str, u64>,
     samples: Vec<serde_json::Value>,
@@ -241,8 +254,41 @@ struct SubStats {
 }
 
 impl SubStats {
+    fn nontrivial_count(&self) -> u64 {
+        self.nontrivial.len() as u64 + self.bulk_nontrivial
+    }
+
+    /// Account one evaluated case. Returns true if it is a fresh non-trivial case (sample candidate).
+    fn record<T: Debug>(&mut self, v: &Verdict, known: u64, case: &T) -> bool {
+        self.excluded_known += known;
+        if let Some(b) = &v.bulk {
+            self.evaluations += b.evaluations;
+            self.bulk_nontrivial += b.distinct_nontrivial;
+            for (c, n) in &b.classes {
+                *self.classes.entry(c).or_default() += n;
+            }
+            for c in &v.classes {
+                *self.classes.entry(c).or_default() += 1;
+            }
+            return b.distinct_nontrivial > 0;
+        }
+        self.evaluations += 1;
+        for c in &v.classes {
+            *self.classes.entry(c).or_default() += 1;
+        }
+        if v.nontrivial {
+            let fp = v
+                .fingerprint
+                .unwrap_or_else(|| fnv1a(format!("{:?}", case).as_bytes()));
+            self.nontrivial.insert(fp)
+        } else {
+            false
+        }
+    }
+
     fn merge(&mut self, o: SubStats) {
         self.evaluations += o.evaluations;
+        self.bulk_nontrivial += o.bulk_nontrivial;
         self.nontrivial.extend(o.nontrivial);
         for (k, v) in o.classes {
             *self.classes.entry(k).or_default() += v;
@@ -288,6 +334,8 @@ pub struct Ctx {
     inconclusive: Vec<String>,
     replayed: u64,
     only: Option<String>,
+    /// VERIF_TRACE_CASE=1: print every case before evaluating it (to diagnose hangs).
+    trace_cases: bool,
 }
 
 static PROGRESS: AtomicU64 = AtomicU64::new(0);
@@ -384,6 +432,7 @@ impl Ctx {
             inconclusive: vec![],
             replayed: 0,
             only: std::env::var("VERIF_ONLY").ok(),
+            trace_cases: std::env::var("VERIF_TRACE_CASE").is_ok(),
         }
     }
 
@@ -418,7 +467,10 @@ impl Ctx {
     }
 
     /// Evaluate one case: panics become failures; known signatures are counted and removed.
-    fn eval<T, F: Fn(&T) -> Verdict>(&self, f: &F, case: &T) -> (Verdict, u64) {
+    fn eval<T: Debug, F: Fn(&T) -> Verdict>(&self, f: &F, case: &T) -> (Verdict, u64) {
+        if self.trace_cases {
+            eprintln!("CASE {:?}", case);
+        }
         let mut v = match guarded(|| f(case)) {
             Ok(v) => v,
             Err(fail) => {
@@ -629,20 +681,10 @@ impl Ctx {
             }
             {
                 let mut st = stats.borrow_mut();
-                st.evaluations += 1;
-                st.excluded_known += known;
-                for c in &v.classes {
-                    *st.classes.entry(c).or_default() += 1;
-                }
-                if v.nontrivial {
-                    let fp = v
-                        .fingerprint
-                        .unwrap_or_else(|| fnv1a(format!("{:?}", case).as_bytes()));
-                    let fresh = st.nontrivial.insert(fp);
-                    if fresh && worker == 0 && st.samples.len() < 3 {
-                        if let Ok(j) = serde_json::to_value(&case) {
-                            st.samples.push(j);
-                        }
+                let fresh = st.record(&v, known, &case);
+                if fresh && worker == 0 && st.samples.len() < 3 {
+                    if let Ok(j) = serde_json::to_value(&case) {
+                        st.samples.push(j);
                     }
                 }
             }
@@ -710,20 +752,10 @@ impl Ctx {
                         for case in make(w, workers) {
                             tick();
                             let (v, known) = this.eval(f, &case);
-                            st.evaluations += 1;
-                            st.excluded_known += known;
-                            for c in &v.classes {
-                                *st.classes.entry(c).or_default() += 1;
-                            }
-                            if v.nontrivial {
-                                let fp = v
-                                    .fingerprint
-                                    .unwrap_or_else(|| fnv1a(format!("{:?}", case).as_bytes()));
-                                let fresh = st.nontrivial.insert(fp);
-                                if fresh && w == 0 && st.samples.len() < 3 {
-                                    if let Ok(j) = serde_json::to_value(&case) {
-                                        st.samples.push(j);
-                                    }
+                            let fresh = st.record(&v, known, &case);
+                            if fresh && w == 0 && st.samples.len() < 3 {
+                                if let Ok(j) = serde_json::to_value(&case) {
+                                    st.samples.push(j);
                                 }
                             }
                             for fl in v.failures {
@@ -796,7 +828,7 @@ impl Ctx {
         let mut all_exhaustive = !self.subs.is_empty();
         for (name, st) in &self.subs {
             evaluations += st.evaluations;
-            nontrivial += st.nontrivial.len() as u64;
+            nontrivial += st.nontrivial_count();
             excluded += st.excluded_known;
             all_exhaustive &= st.exhaustive;
             for s in st.samples.iter().take(2) {
@@ -813,7 +845,7 @@ impl Ctx {
                 name.clone(),
                 serde_json::json!({
                     "evaluations": st.evaluations,
-                    "distinct_nontrivial": st.nontrivial.len(),
+                    "distinct_nontrivial": st.nontrivial_count(),
                     "classes": classes,
                     "excluded_known": st.excluded_known,
                     "exhaustive": st.exhaustive,
@@ -872,7 +904,7 @@ impl Ctx {
                 "  {:<28} eval={:<9} nontrivial={:<8} classes={:?}",
                 name,
                 st.evaluations,
-                st.nontrivial.len(),
+                st.nontrivial_count(),
                 st.classes
             );
         }
